@@ -158,6 +158,11 @@ func (t *T) Case(desc string, nontrivial bool, run func() (string, *Fail)) {
 	if i < t.from {
 		return
 	}
+	if t.sum.NViolations >= 400 && t.only == "" && pattern == "" {
+		// this shard has failed beyond doubt: stop spending time on it (reported as not exhaustive)
+		t.sum.Incomplete = true
+		return
+	}
 	hv, k := key(desc)
 	if t.only != "" {
 		if k != t.only {
